@@ -177,3 +177,96 @@ def exogenous_applied(prog):
         'an entry of the exogenous list can be skipped: an earlier definition then wins over the one supplied last' if not every else
         'the value written is not the supplied one')
     return f_raw, ok, why
+
+
+def initial_value_text_exact(prog):
+    """The text kept for an initial condition is an exact rendering of the number supplied, and is passed on unchanged.
+    -> [(funcinfo, where, ok, why)]
+    (a) the public Model method that records an initial condition stores  v | str(v) | repr(v)  where v is the value
+        parameter, possibly forced through float();   (b) the function that turns the records into equation rows hands the
+        recorded text on as it is."""
+    from ..dataflow import target_names
+    M = prog.classes.get('Model')
+    if M is None:
+        raise AnalysisError('class Model not found')
+    out = []
+    recorders = 0
+    for f_raw in M.methods.values():
+        if f_raw.name.startswith('_'):
+            continue
+        f = flatten(prog, f_raw)
+        params = set(f.params()[1:])
+        for c in ast.walk(f.node):
+            if not (isinstance(c, ast.Call) and call_name(c) == 'append' and isinstance(c.func, ast.Attribute) and
+                    isinstance(c.func.value, ast.Attribute) and c.func.value.attr == 'InitialConditions' and c.args):
+                continue
+            recorders += 1
+            tup = c.args[0]
+            if isinstance(tup, ast.Name):
+                tup = single_assign_subst(f.node).get(tup.id, tup)
+            if not isinstance(tup, ast.Tuple) or len(tup.elts) != 3:
+                out.append((f_raw, '%s:%d' % (f.module.rel, c.lineno), False, 'the record appended is not a (sector, variable, value) triple'))
+                continue
+            val = tup.elts[2]
+            # names the value may be: the parameter, or a name assigned float(<that>) (also re-binding the parameter)
+            exact = set()
+            for n in ast.walk(f.node):
+                if isinstance(n, ast.Assign) and len(n.targets) == 1 and isinstance(n.targets[0], ast.Name):
+                    v = n.value
+                    if isinstance(v, ast.Call) and call_name(v) == 'float' and len(v.args) == 1 and isinstance(v.args[0], ast.Name) and \
+                            v.args[0].id in params:
+                        exact.add((n.targets[0].id, v.args[0].id))
+            srcs = {p for p in params if any(isinstance(x, ast.Name) and x.id == p for x in ast.walk(val))} | \
+                   {src for nm, src in exact if any(isinstance(x, ast.Name) and x.id == nm for x in ast.walk(val))}
+            inner = val
+            if isinstance(inner, ast.Call) and call_name(inner) in ('str', 'repr') and len(inner.args) == 1 and not inner.keywords:
+                inner = inner.args[0]
+            ok = isinstance(inner, ast.Name) and (inner.id in params or inner.id in {nm for nm, _ in exact})
+            # every other assignment to that name must be the float() forcing
+            if ok:
+                for n in ast.walk(f.node):
+                    if isinstance(n, (ast.Assign, ast.AugAssign)):
+                        tg = n.targets if isinstance(n, ast.Assign) else [n.target]
+                        if any(isinstance(t, ast.Name) and t.id == inner.id for t in tg):
+                            v = n.value
+                            if not (isinstance(n, ast.Assign) and isinstance(v, ast.Call) and call_name(v) == 'float' and len(v.args) == 1
+                                    and isinstance(v.args[0], ast.Name) and v.args[0].id in params):
+                                ok = False
+            out.append((f_raw, '%s:%d' % (f.module.rel, c.lineno), ok,
+                        'the value recorded is the number supplied, rendered exactly (%s)' % unparse(val) if ok else
+                        'the value recorded is `%s`: not an exact rendering of the number supplied, the k=0 value differs from the stated one'
+                        % unparse(val)[:100]))
+    if not recorders:
+        raise AnalysisError('no public Model method records initial conditions')
+    # (b) the rows generated from the records carry the recorded text unchanged
+    gens = 0
+    for f_raw in M.methods.values():
+        f = flatten(prog, f_raw)
+        for loop in [n for n in ast.walk(f.node) if isinstance(n, ast.For)]:
+            if not (isinstance(loop.iter, ast.Attribute) and loop.iter.attr == 'InitialConditions'):
+                continue
+            lv = target_names(loop.target)
+            if len(lv) != 3:
+                continue
+            apps = [c for c in ast.walk(loop) if isinstance(c, ast.Call) and call_name(c) == 'append' and c.args and isinstance(c.args[0], ast.Tuple)
+                    and len(c.args[0].elts) >= 2]
+            if not apps:
+                continue
+            gens += 1
+            rebinds = any(isinstance(x, ast.Name) and x.id == lv[2] and isinstance(x.ctx, ast.Store) for st in loop.body for x in ast.walk(st))
+            for c in apps:
+                v = c.args[0].elts[1]
+                ok = isinstance(v, ast.Name) and v.id == lv[2] and not rebinds
+                out.append((f_raw, '%s:%d' % (f.module.rel, c.lineno), ok,
+                            'the recorded text becomes the right-hand side of the (0) row unchanged' if ok else
+                            'the right-hand side of the (0) row is `%s`, not the recorded text' % unparse(v)[:100]))
+    if not gens:
+        raise AnalysisError('no Model function turns the initial-condition records into rows')
+    # one verdict per site, attributed to the function whose own text holds it (it is inlined into its callers, too)
+    best = {}
+    for f_raw, where, ok, why in out:
+        line = int(where.rsplit(':', 1)[1])
+        own = f_raw.node.lineno <= line <= getattr(f_raw.node, 'end_lineno', line)
+        if where not in best or (own and not best[where][4]):
+            best[where] = (f_raw, where, ok, why, own)
+    return [v[:4] for k, v in sorted(best.items())]
